@@ -261,6 +261,7 @@ pub fn generate(seed: u64, n: usize, _thorough: bool, _corpus: Option<&str>) -> 
     out.extend(chain_programs(seed, if n >= 2000 { n / 12 } else { 48 }));
     out.extend(nested_logic_programs(seed, if n >= 2000 { n / 24 } else { 32 }));
     out.extend(const_arith_programs(seed, if n >= 2000 { n / 16 } else { 40 }));
+    out.extend(brace_block_programs(seed, if n >= 2000 { n / 16 } else { 40 }));
     out.extend(constant_row_programs(seed, if n >= 2000 { n / 24 } else { 32 }));
     // fixed programs for the arms the random stream rarely reaches: `Linearization(..)` errors, the variable-free branch of
     // `auto_solver` (solved / infeasible), an unbounded model
@@ -308,7 +309,11 @@ fn chain_eval(e: &SrcExp, env: &indexmap::IndexMap<String, f64>) -> Option<f64> 
         SrcExp::BinOp(op, x, y) => { let (l, r) = (chain_eval(x, env)?, chain_eval(y, env)?); match op {
             BinOp::Add => l + r, BinOp::Sub => l - r, BinOp::Mul => l * r, BinOp::Div => if r == 0.0 { return None } else { l / r },
             BinOp::And => b(t(l) && t(r)), BinOp::Or => b(t(l) || t(r)), BinOp::Xor => b(t(l) != t(r)), BinOp::Implies => b(!t(l) || t(r)), BinOp::Iff => b(t(l) == t(r)) } }
-        _ => return None,
+        SrcExp::Abs(x) => chain_eval(x, env)?.abs(),
+        SrcExp::Min(es) => { let mut m = f64::INFINITY; if es.is_empty() { return None; } for x in es { m = m.min(chain_eval(x, env)?); } m }
+        SrcExp::Max(es) => { let mut m = f64::NEG_INFINITY; if es.is_empty() { return None; } for x in es { m = m.max(chain_eval(x, env)?); } m }
+        SrcExp::And(es) => { let mut all = true; for x in es { all &= t(chain_eval(x, env)?); } b(all) }
+        SrcExp::Or(es) => { let mut any = false; for x in es { any |= t(chain_eval(x, env)?); } b(any) }
     })
 }
 
@@ -568,6 +573,82 @@ pub fn constant_row_programs(seed: u64, count: usize) -> Vec<Case> {
         let mut c = one(&m, text.trim_end(), "constant-rows");
         c.tags.push(format!("constant-rows-{}", i % 6));
         out.push(c);
+    }
+    out
+}
+
+// ======================================================================================================
+// BRACE BLOCKS WITH A REPEATED OPERAND: `avg { x, y, x }` is `(2x + y) / 3`, `xor { a, b, a }` is `b` - every operand counts,
+// also one that is written twice.  (For min / max / all / any a repetition changes nothing; those are generated for the parse
+// path.)  A program of the sensitive kinds is kept only if dropping the repeated operands would change the answer.  Own generator.
+
+pub fn brace_block_programs(seed: u64, count: usize) -> Vec<Case> {
+    use rooc::{BinOp, Comparison, OptimizationType};
+    let mut r = Rng::new(seed ^ 0xb2ace_b10c_u64).fork();
+    let bx = |e: SrcExp| Box::new(e);
+    let mut out = vec![];
+    let mut made = 0usize; let mut attempts = 0usize;
+    while made < count && attempts < count * 60 {
+        attempts += 1;
+        let kind = made % 10;   // 0-4 avg, 5-7 xor, 8 all/any, 9 min/max
+        let arith = kind <= 4 || kind == 9;
+        let names: Vec<&str> = if arith { vec!["x", "y", "z"] } else { vec!["a", "b", "c"] };
+        let ds: Vec<VarDecl> = names.iter().map(|n| VarDecl { name: n.to_string(), ty: if arith { VariableType::IntegerRange(0, 4) } else { VariableType::Boolean } }).collect();
+        // operands with at least one verbatim repetition
+        let nops = 3 + r.below(2);
+        let mut ops: Vec<(SrcExp, String)> = vec![];
+        for _ in 0..nops - 1 {
+            let n = r.pick(&names).to_string();
+            if arith && r.chance(1, 4) { let k = r.range(1, 3); ops.push((SrcExp::BinOp(BinOp::Add, bx(SrcExp::Variable(n.clone())), bx(SrcExp::Number(k as f64))), format!("{} + {}", n, k))); }
+            else if !arith && r.chance(1, 5) { ops.push((SrcExp::Not(bx(SrcExp::Variable(n.clone()))), format!("not {}", n))); }
+            else { ops.push((SrcExp::Variable(n.clone()), n)); }
+        }
+        let rep = ops[r.below(ops.len())].clone();
+        let at = r.below(ops.len() + 1);
+        ops.insert(at, rep);
+        let dedup: Vec<(SrcExp, String)> = { let mut seen: Vec<String> = vec![]; ops.iter().filter(|(_, t)| if seen.contains(t) { false } else { seen.push(t.clone()); true }).cloned().collect() };
+        let block = |head: &str, os: &[(SrcExp, String)]| format!("{} {{ {} }}", head, os.iter().map(|(_, t)| t.clone()).collect::<Vec<_>>().join(", "));
+        let avg = |os: &[(SrcExp, String)]| { let mut sum = os[0].0.clone(); for (e, _) in &os[1..] { sum = SrcExp::BinOp(BinOp::Add, bx(sum), bx(e.clone())); } SrcExp::BinOp(BinOp::Div, bx(sum), bx(SrcExp::Number(os.len() as f64))) };
+        let xorf = |os: &[(SrcExp, String)]| { let mut e = os[0].0.clone(); for (x, _) in &os[1..] { e = SrcExp::Xor(bx(e), bx(x.clone())); } e };
+        // the expression, the one a de-duplicating front end would build, and the text
+        let (good, bad, text_e): (SrcExp, SrcExp, String) = match kind {
+            0..=4 => (avg(&ops), avg(&dedup), block("avg", &ops)),
+            5..=7 => (xorf(&ops), xorf(&dedup), block("xor", &ops)),
+            8 => if r.chance(1, 2) { (SrcExp::And(ops.iter().map(|o| o.0.clone()).collect()), SrcExp::And(dedup.iter().map(|o| o.0.clone()).collect()), block("all", &ops)) }
+                 else { (SrcExp::Or(ops.iter().map(|o| o.0.clone()).collect()), SrcExp::Or(dedup.iter().map(|o| o.0.clone()).collect()), block("any", &ops)) },
+            _ => if r.chance(1, 2) { (SrcExp::Min(ops.iter().map(|o| o.0.clone()).collect()), SrcExp::Min(dedup.iter().map(|o| o.0.clone()).collect()), block("min", &ops)) }
+                 else { (SrcExp::Max(ops.iter().map(|o| o.0.clone()).collect()), SrcExp::Max(dedup.iter().map(|o| o.0.clone()).collect()), block("max", &ops)) },
+        };
+        // weights 1, 2, 4 in the objective
+        let opt = if r.chance(1, 2) { OptimizationType::Min } else { OptimizationType::Max };
+        let mut wobj = SrcExp::Variable(names[0].into()); let mut wtext = names[0].to_string();
+        for (i, n) in names.iter().enumerate().skip(1) { let w = (1u32 << i) as f64; wobj = SrcExp::BinOp(BinOp::Add, bx(wobj), bx(SrcExp::BinOp(BinOp::Mul, bx(SrcExp::Number(w)), bx(SrcExp::Variable(n.to_string()))))); wtext = format!("{} + {} * {}", wtext, w as i64, n); }
+        let mk = |e: &SrcExp, r: &mut Rng, form: usize, k: f64, cmp: Comparison| -> (Vec<SrcConstraint>, SrcExp) {
+            let _ = r;
+            if !arith { (vec![SrcConstraint::new_logic_assertion(e.clone(), "blk".into())], wobj.clone()) }
+            else if form == 0 { (vec![SrcConstraint::new(e.clone(), cmp, SrcExp::Number(k), "blk".into())], wobj.clone()) }
+            else { (vec![SrcConstraint::new(wobj.clone(), Comparison::LessOrEqual, SrcExp::Number(k + 6.0), "cap".into())], e.clone()) }
+        };
+        let form = if arith && r.chance(1, 3) { 1 } else { 0 };
+        let k = r.range(1, 3) as f64 + if r.chance(1, 2) { 0.5 } else { 0.0 };
+        let cmp = *r.pick(&[Comparison::LessOrEqual, Comparison::GreaterOrEqual]);
+        let (cg, og) = mk(&good, &mut r, form, k, cmp);
+        let (cb, ob) = mk(&bad, &mut r, form, k, cmp);
+        let m_good = gen_model::build(opt.clone(), og, cg, &ds);
+        let m_bad = gen_model::build(opt.clone(), ob, cb, &ds);
+        let sensitive = kind <= 7;
+        if sensitive && chain_brute(&m_good, &ds) == chain_brute(&m_bad, &ds) { continue; }
+        let cs = match cmp { Comparison::LessOrEqual => "<=", _ => ">=" };
+        let body = if !arith { format!("{} {}\ns.t.\n    blk: {}\n", if matches!(opt, OptimizationType::Min) { "min" } else { "max" }, wtext, text_e) }
+            else if form == 0 { format!("{} {}\ns.t.\n    blk: {} {} {}\n", if matches!(opt, OptimizationType::Min) { "min" } else { "max" }, wtext, text_e, cs, k) }
+            else { format!("{} {}\ns.t.\n    cap: {} <= {}\n", if matches!(opt, OptimizationType::Min) { "min" } else { "max" }, text_e, wtext, k + 6.0) };
+        let decl = format!("    {} as {}", names.join(", "), if arith { "IntegerRange(0, 4)" } else { "Boolean" });
+        let text = format!("{}define\n{}", body, decl);
+        let mut c = one(&m_good, &text, "brace-block");
+        c.tags.push(format!("brace-block-{}", match kind { 0..=4 => "avg", 5..=7 => "xor", 8 => "all-any", _ => "min-max" }));
+        if sensitive { c.tags.push("brace-block-separating".into()); }
+        out.push(c);
+        made += 1;
     }
     out
 }
